@@ -5,6 +5,8 @@ import (
 	"math/rand"
 	"os"
 	"strings"
+	"sync"
+	"sync/atomic"
 	"time"
 
 	"verif/harness/internal/dbx"
@@ -19,6 +21,7 @@ type Script struct {
 	ID       string  `json:"id"`
 	Mode     string  `json:"mode"` // free: flusher runs freely; steer: flusher stages released by "fl" steps
 	Impl     bool    `json:"impl"` // also record the implementation-level stream for TraceStore.tla
+	Mid      bool    `json:"mid"`  // read every key from another goroutine while the flusher is held inside a stage
 	Seed     int64   `json:"seed"`
 	Cfg      CfgJSON `json:"cfg"`
 	Alphabet string  `json:"alphabet"`
@@ -50,6 +53,7 @@ type ScriptResult struct {
 	Abandons  int            `json:"abandons"`
 	Misuse    int            `json:"misuse"`
 	Readers   int            `json:"readers"`
+	MidReads  int            `json:"mid_reads"`
 	Impl      []ImplEvent    `json:"-"`
 	Diverged  int            `json:"diverged"`
 	ImplTrace []string       `json:"-"`
@@ -159,6 +163,7 @@ func genScript(r *rand.Rand, id string, nops int, profile string) Script {
 		rsteps()
 	}
 	s.Impl = s.Mode == "steer" && (profile == "c01" || profile == "c05")
+	s.Mid = s.Mode == "steer" && (profile == "c01" || profile == "c05") && r.Intn(2) == 0
 	s.Steps = append(s.Steps, Step{Op: "idle"}, Step{Op: "read"})
 	rsteps()
 	for w := range open {
@@ -189,6 +194,40 @@ type runner struct {
 	keep   bool              // keep the directory
 	rd     map[int]*dbx.Sess // long-lived readers
 	closes int
+
+	// mid-stage reads (Script.Mid): while the script waits for a released flusher stage, the
+	// flusher is held before each of its file-system operations and worker 5 reads every key
+	inFl    atomic.Bool
+	midBusy atomic.Bool
+	midWG   sync.WaitGroup
+}
+
+// midStage runs on the flusher's goroutine, before one of its file-system operations (it may
+// hold the level lock: the reader then simply waits for it, so this only waits briefly).
+func (r *runner) midStage(op, name string, n int) {
+	if !r.inFl.Load() || !r.midBusy.CompareAndSwap(false, true) {
+		return
+	}
+	done := make(chan struct{})
+	r.midWG.Add(1)
+	go func() {
+		defer r.midWG.Done()
+		defer r.midBusy.Store(false)
+		defer close(done)
+		c := r.st.Sess(5)
+		c.Begin(false)
+		for k := 1; k <= r.s.NKeys; k++ {
+			if c.Get(k) == -2 {
+				r.res.Corrupt++
+			}
+		}
+		c.Discard()
+		r.res.MidReads++
+	}()
+	select {
+	case <-done:
+	case <-time.After(4 * time.Millisecond):
+	}
 }
 
 // flIdle: the flusher is parked at fl.wait and nothing is queued.
@@ -206,7 +245,10 @@ func (r *runner) flStep() bool {
 	if r.flIdle() {
 		return false
 	}
+	r.inFl.Store(true)
 	r.ctl.Step()
+	r.inFl.Store(false)
+	r.midWG.Wait()
 	r.res.FlSteps++
 	return true
 }
@@ -546,6 +588,10 @@ func runScript(s Script, ctl *gate.Ctl) (tr *rec.Trace, res ScriptResult) {
 		r.s.Mode = "free"
 	} else {
 		ctl.OnClient = r.onClient
+		if s.Mid && s.Mode == "steer" {
+			ctl.OnFsPre = r.midStage
+			defer func() { ctl.OnFsPre = nil }()
+		}
 	}
 	if err := r.open(true); err != nil {
 		res.Err = err.Error()
